@@ -13,6 +13,12 @@ Model/ClientShutdown.v the current source implements:
 and checks the other wiring the model transcribes: the select loops of both tasks look at close_tx.closed() first
 (biased), read_task reports through close_tx.send(res), wait_for_shutdown writes the cause slot before its receiver
 is dropped (it is dropped by returning).  A missing anchor is an error string, never a silent default.
+Ping / inactivity wiring (the layer pstate/plabel of the model), checked the same way by check_ping(): the ping arm of
+send_task is the LAST arm of its biased select and a failing send_ping() breaks with Error::Transport; read_task calls
+mark_as_active() for EVERY item of backend_event before looking at it; a Pong is answered with Ok(vec![]); the inactivity
+arm breaks with Error::Transport("WebSocket ping/pong inactive") iff is_inactive(); utils.rs: is_inactive =
+`if last_active.elapsed() >= inactive_dur { count += 1 }  count >= max_count`, mark_as_active only writes last_active;
+the builder wires inactive_limit / max_failures / ping_interval into them and max_failures asserts > 0.
 The source file can be overridden with the environment variable VERIF_SHUTDOWN_SRC (or run(path=...)) for trying
 the translator on a scratch copy."""
 import os, re
@@ -123,17 +129,73 @@ def classify(src):
     return "VLateDrop", order + ("" if not (queue_early or mgr_early) else "   (only one of queue / manager handle is dropped before close(): treated as the late drop)")
 
 
+UTILS_REL = "core/src/client/async_client/utils.rs"
+
+
+def check_ping(src, utils):
+    """-> None or an error string: the wiring that Model/ClientShutdown.v (ping / inactivity) transcribes"""
+    W = lambda t: re.sub(r"\s+", " ", _strip_comments(t))
+    send = translate._fn_body(src, r"async fn send_task<T, S>\(params: SendTaskParams<T, S>\)")
+    read = translate._fn_body(src, r"async fn read_task<R, S>\(params: ReadTaskParams<R, S>\)")
+    if send is None or read is None:
+        return "send_task / read_task not found"
+    sloop, _, err = _after_loop(_strip_comments(send), "send_task")
+    if err:
+        return err
+    rloop, _, err = _after_loop(_strip_comments(read), "read_task")
+    if err:
+        return err
+    sl, rl = W(sloop), W(rloop)
+    a, b, c = sl.find("_ = close_tx.closed() =>"), sl.find("maybe_msg = from_frontend.recv() =>"), sl.find("_ = ping_interval.next() =>")
+    if not (0 <= a < b < c):
+        return "send_task: the select arms are not closed() < from_frontend.recv() < ping_interval.next()"
+    if not re.search(r"_ = ping_interval\.next\(\) => \{ if let Err\(err\) = sender\.send_ping\(\)\.await \{ (tracing::debug!\([^;]*\); )?break Err\(Error::Transport\(err\.into\(\)\)\); \} \}", sl):
+        return "send_task: the ping arm is not `if let Err(err) = sender.send_ping().await { break Err(Error::Transport(err.into())) }`"
+    if not re.search(r"maybe_msg = backend_event\.next\(\) => \{ inactivity_check\.mark_as_active\(\); let Some\(msg\) = maybe_msg else \{ break Ok\(\(\)\) \};", rl):
+        return "read_task: `inactivity_check.mark_as_active();` is not the first statement of the backend_event arm"
+    if not re.search(r"_ = inactivity_stream\.next\(\) => \{ if inactivity_check\.is_inactive\(\) \{ break Err\(Error::Transport\(\"WebSocket ping/pong inactive\"\.into\(\)\)\); \} \}", rl):
+        return "read_task: the inactivity arm is not `if inactivity_check.is_inactive() { break Err(Error::Transport(\"WebSocket ping/pong inactive\".into())) }`"
+    x, y = rl.find("maybe_msg = backend_event.next() =>"), rl.find("_ = inactivity_stream.next() =>")
+    if not (0 <= x < y):
+        return "read_task: backend_event is not looked at before inactivity_stream"
+    if not re.search(r"Some\(Ok\(ReceivedMessage::Pong\)\) => \{ (tracing::debug!\([^;]*\); )?Ok\(vec!\[\]\) \}", W(src)):
+        return "handle_backend_messages: a Pong is not answered with Ok(vec![])"
+    ws = W(src)
+    for name, pat in (("InactivityCheck::new(p.inactive_limit, p.max_failures)", r"InactivityCheck::new\(p\.inactive_limit, p\.max_failures\)"),
+                      ("interval_at(start, p.inactive_limit)", r"let start = tokio::time::Instant::now\(\) \+ p\.inactive_limit;.{0,160}tokio::time::interval_at\( ?start, p\.inactive_limit,? ?\)"),
+                      ("interval(p.ping_interval)", r"tokio::time::interval\(p\.ping_interval\)"),
+                      ("assert!(max > 0) in PingConfig::max_failures", r"pub fn max_failures\(mut self, max: usize\) -> Self \{ assert!\(max > 0\); self\.max_failures = max; self \}")):
+        if not re.search(pat, ws):
+            return "build_with_tokio / PingConfig: anchor `%s` not found" % name
+    wu = W(utils)
+    if not re.search(r"pub\(crate\) fn is_inactive\(&mut self\) -> bool \{ match self \{ Self::Disabled => false, Self::Enabled \{ inactive_dur, last_active, count, max_count, \.\. \} => \{ "
+                     r"if last_active\.elapsed\(\) >= \*inactive_dur \{ \*count \+= 1; \} count >= max_count \} \} \}", wu):
+        return "utils.rs: is_inactive is not `if last_active.elapsed() >= *inactive_dur { *count += 1; } count >= max_count`"
+    if not re.search(r"pub\(crate\) fn mark_as_active\(&mut self\) \{ if let Self::Enabled \{ last_active, \.\. \} = self \{ \*last_active = std::time::Instant::now\(\); \} \}", wu):
+        return "utils.rs: mark_as_active is not `*last_active = Instant::now()` only (the model never resets the count)"
+    if not re.search(r"Self::Enabled \{ inactive_dur: _inactive_dur, last_active: std::time::Instant::now\(\), count: 0, max_count: _max_count \}", wu):
+        return "utils.rs: InactivityCheck::new does not start with count 0 / max_count / inactive_dur as given"
+    return None
+
+
 def run(path=None):
     path = path or os.environ.get("VERIF_SHUTDOWN_SRC")
     src = open(path).read() if path else translate._read(REL)
+    utils = open(os.path.join(os.path.dirname(path), "utils.rs")).read() if path else translate._read(UTILS_REL)
     variant, info = classify(src)
     if variant is None:
         return info
+    err = check_ping(src, utils)
+    if err:
+        return err
     out = ["(* GENERATED by tools/translators/shutdown_order.py from /repo/%s -- do not edit *)" % REL,
            "From JV Require Import Model.ClientShutdown.",
            "",
            "(* order of send_task's epilogue as read from the source: %s *)" % info,
            "Definition gen_variant : variant := %s." % variant,
+           "",
+           "(* ping / inactivity wiring as the model transcribes it (checked, see check_ping): ping arm last in send_task's biased select,",
+           "   mark_as_active on every received item, count += 1 when stale and never reset, dead when count >= max_count > 0 *)",
            ""]
     if not path:
         vlib.write_if_changed(os.path.join(translate.GEN, "ShutdownOrderGen.v"), "\n".join(out))
